@@ -194,6 +194,8 @@ def _by_case(rng, tier):
 
 
 def cases(rng, tier):
+    from props import c17_openwindow as OW
+    yield from OW.cases(rng, tier)
     n_sm, n_pr = (260, 200) if tier == 'quick' else (7000, 4000)
     n_by = 160 if tier == 'quick' else 4000
     # a few fixed shapes first: the replies NFD really sends
@@ -218,6 +220,8 @@ def cases(rng, tier):
 
 
 def shrink(case):
+    if case['mode'] == 'ow':
+        return
     if case['mode'] == 'by':
         for k in sorted(case['kw']):
             kw = dict(case['kw'])
@@ -584,6 +588,9 @@ def _run_by(case):
 
 
 def run_impl(case):
+    if case['mode'] == 'ow':
+        from props import c17_openwindow as OW
+        return OW.run(case)
     if case['mode'] == 'pr':
         return _run_pr(case)
     if case['mode'] == 'by':
@@ -907,6 +914,8 @@ def _by_line(case, impl):
 
 
 def model_line(case, impl):
+    if case['mode'] == 'ow':
+        return None
     if case['mode'] == 'by':
         return _by_line(case, impl)
     if case['mode'] == 'pr':
@@ -1118,6 +1127,9 @@ def _by_oracle(case, impl):
 
 
 def oracle(case, impl):
+    if case['mode'] == 'ow':
+        from props import c17_openwindow as OW
+        return OW.oracle(case, impl)
     """the property statement, evaluated on the implementation's observable behaviour only"""
     if case['mode'] == 'pr':
         if 'encode_error' in impl:
@@ -1189,6 +1201,8 @@ def oracle(case, impl):
 
 
 def nontrivial(case, impl):
+    if case['mode'] == 'ow':
+        return True
     if case['mode'] == 'by':
         return bool(case['kw']) or len(case['prefix']) >= 2
     if case['mode'] == 'pr':
@@ -1198,6 +1212,8 @@ def nontrivial(case, impl):
 
 
 def tags(case, impl):
+    if case['mode'] == 'ow':
+        return ['mode:ow', 'fe:' + case['fe']]
     if case['mode'] == 'by':
         t = ['by', 'by-kw:%d' % len(case['kw']), 'by-local:%s' % case['local'], 'by-comps:%d' % min(len(case['prefix']), 5),
              'by-name-' + impl['name'][0], 'by-resp-' + impl['resp_wire'][0],
@@ -1230,6 +1246,9 @@ def tags(case, impl):
 
 
 def finding_key(case, impl, why):
+    if case['mode'] == 'ow':
+        import re
+        return 'ow-' + re.sub(r'[^a-z]+', '-', re.sub(r'connection \d+', 'connection', why).lower())[:70]
     import re
     if case['mode'] == 'by':
         if 'raised' in why and 'response without body' in why:
